@@ -29,13 +29,13 @@ using h9112e::Msg; using h9112e::Field;
 
 // ---- keys: one per root cause
 const char *K_REASON   = "C26/reason-phrase-line-break-written";          // evhttp_send_reply/_start/_error: reason with CR / LF goes into the status line
-const char *K_TARGET   = "C26/request-target-not-validated";              // evhttp_make_request: URI with SP / CR / LF / HTAB / empty goes into the request line
+const char *K_TARGET   = "C26/request-target-not-validated";              // evhttp_make_request: URI with CR / LF / HTAB / other CTL / empty goes into the request line
+const char *K_TARGET_SP= "C26/request-target-with-space-written";         // evhttp_make_request: URI with SP goes into the request line (upstream keeps this on purpose: "nonconformant" URIs)
 const char *K_VALUE    = "C26/header-value-line-break-run-accepted";      // evhttp_add_header: any run of CR / LF followed by SP / HTAB is taken as a continuation
 const char *K_NAME     = "C26/header-name-not-validated";                 // evhttp_add_header: ':' / whitespace / CTL in a field name
 const char *K_BODILESS = "C26/bodiless-response-carries-body";            // HEAD / 1xx / 204 / 304: output buffer written behind the header section
 const char *K_STREAM10 = "C26/streamed-reply-http10-keepalive-content-length-0";   // send_reply_start to an HTTP/1.0 keep-alive request announces Content-Length: 0
 const char *K_REQBODY  = "C26/request-body-without-content-length";       // HEAD / TRACE / body-less extension method: output buffer written without framing
-const char *K_ERRCB    = "C26/errorcb-empty-output-no-default-page";      // errorcb returns 0 without output: documented fallback to the default page missing
 // ---- generic oracle clauses (no known root cause attached)
 const char *G_PARSE    = "C26/message-does-not-parse";
 const char *G_TRAIL    = "C26/bytes-after-message";
@@ -58,6 +58,7 @@ bool ctl(unsigned char c) { return c < 0x20 || c == 0x7f; }
 bool has_crlf(const std::string &v) { return v.find_first_of("\r\n") != std::string::npos; }
 bool reason_ok(const std::string &r) { return !has_crlf(r); }
 bool target_ok(const std::string &t) { if (t.empty()) return false; for (unsigned char c : t) if (ws_like(c)) return false; return true; }
+bool target_sp_only(const std::string &t) { bool sp = false; for (unsigned char c : t) { if (c == ' ') sp = true; else if (ws_like(c)) return false; } return sp; }   // the only offence is SP
 bool name_ok(const std::string &n) { if (n.empty()) return false; for (unsigned char c : n) if (c == ':' || ws_like(c) || ctl(c)) return false; return true; }
 // every line break in the value is exactly CRLF followed by SP / HTAB (obs-fold)
 bool value_ok(const std::string &v) {
@@ -344,7 +345,7 @@ void run_server(Src &s) {
   c.ctype_mode = s.below(4);
   if (c.ctype_mode == 2) c.ctype = "application/x-test";
   if (c.ctype_mode == 3) { Arg a = adversarial(s, "text/x", 6); c.ctype = a.v; if (value_run_subdomain(c.ctype) && avoid(K_VALUE)) c.ctype = fix_value(c.ctype); }
-  if (c.style == ST_ERROR) { c.errcb_mode = s.below(4); if (c.errcb_mode == 3 && avoid(K_ERRCB)) c.errcb_mode = 2; if (c.errcb_mode == 1) { c.errcb_body = body_bytes(s); if (c.errcb_body.empty()) c.errcb_body = "custom error page"; } }
+  if (c.style == ST_ERROR) { c.errcb_mode = s.below(4); if (c.errcb_mode == 1) { c.errcb_body = body_bytes(s); if (c.errcb_body.empty()) c.errcb_body = "custom error page"; } }
   // valid caller-supplied framing / automatic names
   int own = s.below(8);
   bool bodiless = c.method == "HEAD" || code_bodiless(c.code);
@@ -411,7 +412,9 @@ void run_server(Src &s) {
   else if (c.style == ST_ERROR) want_body = c.errcb_mode == 1 ? c.errcb_body : m.body;   // the default page is library text: only its framing is checked
   else want_body = c.body;
   if (m.body != want_body) VERIF_FAIL(c.t.blame(G_BODY), "body on the wire (%zu bytes '%s') differs from the supplied one (%zu bytes '%s'); wire='%s'", m.body.size(), esc(m.body, 80).c_str(), want_body.size(), esc(want_body, 80).c_str(), esc(wire, 600).c_str());
-  if (c.style == ST_ERROR && !bodiless && c.errcb_mode != 1) CHECK(!m.body.empty(), c.errcb_mode == 3 ? K_ERRCB : c.t.blame(G_BODY), "evhttp_send_error sent no error page (errorcb mode %d); wire='%s'", c.errcb_mode, esc(wire, 400).c_str());
+  // errcb_mode 3 (callback returns 0 and writes nothing): the property only asks for the supplied body, which is empty; the documented
+  // fallback to the default page is not part of C26 (DESIGN.md §9/§10), so either outcome is accepted there
+  if (c.style == ST_ERROR && !bodiless && c.errcb_mode != 1 && c.errcb_mode != 3) CHECK(!m.body.empty(), c.t.blame(G_BODY), "evhttp_send_error sent no error page (errorcb mode %d); wire='%s'", c.errcb_mode, esc(wire, 400).c_str());
   if (m.framing == h9112e::FR_CHUNKED) {
     std::vector<std::string> want; for (auto &x : c.chunks) if (!x.empty()) want.push_back(x);
     bool same = want.size() == m.chunks.size(); for (size_t i = 0; same && i < want.size(); i++) same = want[i] == m.chunks[i];
@@ -453,7 +456,9 @@ void run_client(Src &s) {
   static const char *URIS[] = {"/", "/a/b?x=1&y=2", "*", "http://example.com/p", "example.com:443", "/%0d%0a", "/caf\xc3\xa9"};
   Arg uri = adversarial(s, URIS[s.below(7)], 5);
   if (uri.adv && s.below(8) == 7) uri.v = "";
-  if (!target_ok(uri.v) && avoid(K_TARGET)) uri.v = fix_target(uri.v);
+  if (target_sp_only(uri.v)) { if (avoid(K_TARGET_SP)) uri.v = fix_target(uri.v); }
+  else if (!target_ok(uri.v) && avoid(K_TARGET)) uri.v = fix_target(uri.v);
+  if (!target_ok(uri.v)) t.add(target_sp_only(uri.v) ? K_TARGET_SP : K_TARGET);   // first: a broken request line is what the reference parser reports first
   std::vector<Hdr> hdrs; { Hdr h; h.name = "Host"; h.value = "example.com"; hdrs.push_back(h); }
   gen_headers(s, hdrs, t, 3);
   std::string body = s.below(2) ? body_bytes(s) : "";
@@ -461,7 +466,6 @@ void run_client(Src &s) {
   if (own == 1 && me.has_body) { Hdr h; h.name = s.flag() ? "Content-Length" : "content-length"; h.value = std::to_string(body.size()); hdrs.push_back(h); }
   if (!me.has_body && !body.empty() && avoid(K_REQBODY)) body.clear();
   if (!me.has_body && !body.empty()) t.add(K_REQBODY);
-  if (!target_ok(uri.v)) t.add(K_TARGET);
 
   hc::World w; w.prop = "C26"; w.backend = 0;
   w.open_base(); w.open_pair();
